@@ -16,6 +16,10 @@ from .. import core
 from ..gen import layout
 
 ZOO = [
+    # one-letter names that also occur inside the keywords before them; tabs and continuation lines after def / class
+    'async def d(e):\n    return e\nasync def f(a):\n    return a\nclass s(object):\n    pass\nclass c:\n    a = 1\n'
+    'def\tname(l):\n    return l\nclass\tKlass2:\n    pass\ndef \\\n  cont(x):\n    return x\nclass \\\n  Cont2:\n    pass\n'
+    'def e(f): return f\nclass a(s): pass\nprint(d, f, s, c, name, Klass2, cont, Cont2, e, a)\n',
     '''import os, sys as system, os.path
 import collections.abc as abc_alias, json
 from os import (path,
